@@ -86,6 +86,18 @@ def main(argv):
     # the processes also differ in their idea of local time: two of the zones are 26 hours apart, so their local dates always
     # differ; and in locale settings
     clock = [{'TZ': 'UTC', 'LC_ALL': 'C'}, {'TZ': 'AAA-14', 'LC_ALL': 'C.UTF-8'}, {'TZ': 'BBB12', 'LANG': 'en_US.UTF-8'}]
+    # ... in what else the environment says about user, host, paths and build time, and in the package metadata an interpreter
+    # finds first on its path (a directory holding only dznpy-7.7.7.dist-info in front of the source tree)
+    from lib import REPO, VERIF
+    meta = os.path.join(fsdir, 'site_meta')
+    os.makedirs(os.path.join(meta, 'dznpy-7.7.7.dist-info'))
+    open(os.path.join(meta, 'dznpy-7.7.7.dist-info', 'METADATA'), 'w').write('Metadata-Version: 2.1\nName: dznpy\nVersion: 7.7.7\n')
+    open(os.path.join(meta, 'dznpy-7.7.7.dist-info', 'RECORD'), 'w').write('')
+    clock[1].update({'USER': 'alice', 'LOGNAME': 'alice', 'HOME': os.path.join(fsdir, 'home_alice'), 'HOSTNAME': 'build-17', 'SOURCE_DATE_EPOCH': '86400',
+                     'PYTHONPATH': os.pathsep.join([meta, os.path.join(REPO, 'src'), os.path.join(VERIF, 'harness')])})
+    clock[2].update({'USER': 'bob', 'HOME': '/nonexistent', 'SOURCE_DATE_EPOCH': '1700000000', 'COLUMNS': '40', 'TMPDIR': fsdir})
+    def env_words(e):
+        return '{' + ', '.join(f'{a}={"<dir with dznpy-7.7.7.dist-info>:..." if a == "PYTHONPATH" else b}' for a, b in sorted(e.items())) + '}'
     for k, hs in enumerate(seeds):
         # every other process builds the cases in the opposite order: the output for a case must not depend on what the
         # process built before ("regardless of ... the process it runs in")
@@ -120,7 +132,8 @@ def main(argv):
                 d = BC.first_diff(outs[0][1], outs[k][1]) if outs[0][0] == 'ok' and outs[k][0] == 'ok' else f'{outs[0][0]} vs {outs[k][0]}'
                 problem = (f'equal inputs give different output in two processes (PYTHONHASHSEED={seeds[0]} and {seeds[k]}, sets built in '
                            f'different insertion orders, cases built in {"opposite" if k % 2 else "the same"} order'
-                           + (', the second one in a directory where the Dezyne file names are symbolic links' if k % 2 else '') + f'): {d}')
+                           + (', the second one in a directory where the Dezyne file names are symbolic links' if k % 2 else '')
+                           + f'; environments {env_words(clock[0])} and {env_words(clock[k % len(clock)])}): {d}')
                 break
         if not problem and outs[0][0] == 'ok':
             for f in outs[0][1]:
